@@ -54,8 +54,21 @@ Fixpoint split_arrow (ts acc : list tok) : option (list tok * list tok) :=
   | t :: r => if is_arrow t then Some (rev acc, r) else split_arrow r (t :: acc)
   end.
 
+(* einops accepts "d->" without blanks around the arrow: put them in before lexing *)
+Fixpoint space_arrow (s : string) : string :=
+  match s with
+  | EmptyString => EmptyString
+  | String c r =>
+      match r with
+      | String c2 r2 =>
+          if Ascii.eqb c "-" && Ascii.eqb c2 ">" then String " " (String "-" (String ">" (String " " (space_arrow r2))))
+          else String c (space_arrow r)
+      | EmptyString => String c EmptyString
+      end
+  end.
+
 Definition parse (s : string) : option pattern :=
-  match split_arrow (lex s "") [] with
+  match split_arrow (lex (space_arrow s) "") [] with
   | None => None
   | Some (l, r) =>
       match parse_side l None [], parse_side r None [] with
